@@ -20,6 +20,7 @@ RULE = ("For every public entry point a *valid* call is built from drawn small s
         "the same case (so the failure is caused by the one mutated aspect). Distinct = entry x structure signature.")
 BUDGET = {"quick": 16000, "thorough": 320000}
 FLOORS = {"quick": {"valid_twin_ok": 8000}}
+FUZZ = {"thorough": 40000}     # coverage-guided add-on stage (vt/fuzz.py)
 ASSUMPTIONS = ["documented error classes are transcribed from the docstrings' Raises sections into the catalogue (doc=True)",
                "calls that have a dense counterpart (documented broadcasting, negative pad = crop, reverse broadcasting) "
                "are not in the catalogue"]
@@ -866,3 +867,13 @@ def execute(case):
                        "documented case %s raised %s (%s) instead of one of %s" % (name, tname, str(raised.orig)[:200], "/".join(LIBERR)))
     ck.nontrivial = twin_ok
     return ck.verdict()
+
+
+def from_bytes(fdp):
+    """Structured decoding of a libFuzzer byte string into a case (coverage-guided stage, vt/fuzz.py)."""
+    ci = fdp.ConsumeIntInRange
+    d = ci(1, 3)
+    return {"entry": NAMES[ci(0, len(NAMES) - 1)],
+            "N": [ci(1, 4) for _ in range(d)], "M": [ci(1, 4) for _ in range(d)], "K": [ci(1, 3) for _ in range(d)],
+            "R1": [1] + [ci(1, 3) for _ in range(d - 1)] + [1], "R2": [1] + [ci(1, 3) for _ in range(d - 1)] + [1],
+            "R3": [1] + [ci(1, 2) for _ in range(d - 1)] + [1], "k": ci(0, d - 1), "aux": ci(0, 59), "seed": ci(0, 2 ** 20)}
